@@ -507,12 +507,19 @@ def _is_field_load(f, ref, struct, field):
     return i is not None and i.op == 'load' and resolve_addr(f, i.o[0]).fsteps[-1:] == ((struct, field),)
 
 
-def _decrements(g, struct, field, m=None):
+def _decrements(g, struct, field, m=None, depth=2):
     is_field = listrules.field_addr_pred(m, g, struct, field) if m is not None else (lambda r: resolve_addr(g, r).fsteps[-1:] == ((struct, field),))
     for s in g.all_insts():
         if s.op == 'store' and is_field(s.o[1]):
             if unit_step(g, s.o[0])[1] == -1:
                 return True
+    # ... or the primitive is itself a thin wrapper (unlink, then convert the node to its element)
+    if m is not None and depth > 0:
+        for c in g.all_insts():
+            if c.op == 'call' and c.callee and not c.is_intrinsic():
+                h = m.pfn(c.callee)
+                if h is not None and h is not g and _decrements(h, struct, field, m, depth - 1):
+                    return True
     return False
 
 
